@@ -8,6 +8,7 @@ import (
 
 	"google.golang.org/protobuf/proto"
 	"google.golang.org/protobuf/reflect/protoreflect"
+	"google.golang.org/protobuf/types/known/fieldmaskpb"
 )
 
 // C02 on every discovered server whose Update request has a `delta` flag: relative updates are read-modify-write, so
@@ -153,4 +154,119 @@ func linDeltaRun(w *World) {
 	if v, ok := cur(); !ok || v != v2+float64(okCalls) {
 		w.Violate("lost-update", fmt.Sprintf("%s: the field was %v, %d relative +1 updates reported success at the same time, and it is now %v (two such updates one after the other had added exactly 2)", caseName, v2, okCalls, v), map[string]any{"server": tr.what})
 	}
+}
+
+// lin-servers: concurrent Updates on any discovered server, with generated requests (absolute values, update masks,
+// relative flags). Whatever they do, an Update's response is the state it left behind, so once every call has returned
+// the state is the response of the call that took effect last - one of the successful ones (or the state before, if
+// none succeeded). A state that is none of them has lost or invented a write.
+func init() {
+	register(&Scenario{Name: "lin-servers", Prop: "C02", Doc: "a tape-chosen discovered model server / memory device with a Get/Update/Pull triple, called directly: 2-3 tasks issue 1-2 Updates each (generated messages and update masks) at the same time; once all have returned, Get is the response of one of the successful Updates (or the state before, if none succeeded)",
+		Run:  linServersRun,
+		Real: []string{"every discovered *pb.ModelServer / MemoryDevice with a Get/Update/Pull triple", "pkg/resource"}, Stub: []string{"caller tasks"}})
+}
+
+func linServersRun(w *World) {
+	triplesOnce.Do(discoverTriples)
+	t := w.Tape
+	if len(triples) == 0 {
+		return
+	}
+	tr := triples[t.Choose(len(triples))]
+	caseName := fmt.Sprintf("%s %s/%s", tr.what, tr.entry.Desc.ServiceName, tr.x)
+	w.Mix(caseName)
+	w.MarkNontrivial()
+	srv := reflect.ValueOf(tr.server())
+	upd, get := srv.MethodByName(string(tr.update.Name())), srv.MethodByName(string(tr.get.Name()))
+	if !upd.IsValid() || !get.IsValid() {
+		return
+	}
+	p := &prng{s: uint64(1 + t.Choose(1<<20))}
+	var topFields []string
+	for i := 0; i < tr.resource.Fields().Len(); i++ {
+		topFields = append(topFields, string(tr.resource.Fields().Get(i).Name()))
+	}
+	cur := func() proto.Message {
+		res := get.Call([]reflect.Value{reflect.ValueOf(context.Background()), reflect.ValueOf(newMsg(tr.get.Input()))})
+		if m, ok := res[0].Interface().(proto.Message); ok && !res[0].IsNil() {
+			return proto.Clone(m)
+		}
+		return nil
+	}
+	before := cur()
+	if before == nil {
+		return
+	}
+	type call struct {
+		req  proto.Message
+		resp proto.Message
+		err  error
+	}
+	var calls []*call
+	nt := 2 + t.Choose(2)
+	for i := 0; i < nt; i++ {
+		var mine []*call
+		for j, k := 0, 1+t.Choose(2); j < k; j++ {
+			req := newMsg(tr.update.Input())
+			val := newMsg(tr.resource)
+			fillMessage(val.ProtoReflect(), p, 2)
+			// (no tweens: a write that goes on over time is lin-tween's subject)
+			val.ProtoReflect().Range(func(fd protoreflect.FieldDescriptor, _ protoreflect.Value) bool {
+				if fd.Message() != nil && fd.Message().FullName() == "smartcore.types.Tween" {
+					val.ProtoReflect().Clear(fd)
+				}
+				return true
+			})
+			req.ProtoReflect().Set(tr.updField, protoreflect.ValueOfMessage(val.ProtoReflect()))
+			if f := req.ProtoReflect().Descriptor().Fields().ByName("update_mask"); f != nil && len(topFields) > 0 && t.Flag(1, 3) {
+				req.ProtoReflect().Set(f, protoreflect.ValueOfMessage((&fieldmaskpb.FieldMask{Paths: []string{topFields[p.n(len(topFields))]}}).ProtoReflect()))
+			}
+			if f := deltaField(tr); f != nil && t.Flag(1, 3) {
+				req.ProtoReflect().Set(f, protoreflect.ValueOfBool(true))
+			}
+			c := &call{req: req}
+			mine = append(mine, c)
+			calls = append(calls, c)
+		}
+		w.Go(fmt.Sprintf("c%d", i), false, func(task *Task) {
+			for _, c := range mine {
+				task.Yield("op")
+				res := upd.Call([]reflect.Value{reflect.ValueOf(context.Background()), reflect.ValueOf(proto.Clone(c.req))})
+				if e, ok := res[1].Interface().(error); ok && e != nil {
+					c.err = e
+				} else if m, ok := res[0].Interface().(proto.Message); ok && !res[0].IsNil() {
+					c.resp = proto.Clone(m)
+				}
+			}
+		})
+	}
+	w.Run()
+	if w.truncated {
+		return
+	}
+	if w.Deadlocked || len(w.Unfinished(false)) > 0 {
+		w.Violate("write-hangs", caseName+": an Update did not return: "+strings.Join(w.Unfinished(true), ","), map[string]any{"server": tr.what})
+		return
+	}
+	after := cur()
+	if after == nil {
+		return
+	}
+	okCalls := 0
+	for _, c := range calls {
+		if c.err == nil && c.resp != nil {
+			okCalls++
+			if proto.Equal(c.resp, after) {
+				return
+			}
+		}
+	}
+	if okCalls == 0 && proto.Equal(before, after) {
+		return
+	}
+	var rs []string
+	for _, c := range calls {
+		rs = append(rs, fmt.Sprintf("%v -> %v %v", c.req, c.resp, c.err))
+	}
+	w.Violate("lost-update", fmt.Sprintf("%s: %d Updates at the same time, %d reported success; Get now returns %v, which is the response of none of them (state before: %v)\n  %s", caseName, len(calls), okCalls, after, before, strings.Join(rs, "\n  ")), map[string]any{"server": tr.what})
 }
